@@ -216,7 +216,7 @@ class Sim:
             return False
         return ga["pending"] == "0" and gb["pending"] == "0" and not self.inflight
 
-    def drain(self, max_ticks=1500, dt_ns=20_000_000, latency=None, slow_dt_ns=None, budget_s=20000):
+    def drain(self, max_ticks=1500, dt_ns=20_000_000, latency=None, slow_dt_ns=None, budget_s=20000, smart=False):
         """Fair phase: loss-free FIFO network (same latency as before: a change would reorder frames in flight)
         until nothing is pending. Both applications keep calling step() every `dt_ns` while anything is in
         flight; when nothing moved for a burst of steps the clock jumps ahead (TFRC may have backed off to its
@@ -227,6 +227,38 @@ class Sim:
         jump = 1_000_000_000
         t_end = self.time + budget_s * 10**9
         used = 0
+        while smart and used < max_ticks and self.time < t_end:
+            # event-driven: a few steps at the given cadence, then straight to the next arrival / the instant the
+            # credit turns non-negative / (nothing else to wait for) a growing pause
+            if self.dead:
+                return False
+            before = sum(len(v) for v in self.frames.values())
+            self.run(3, dt_ns, net, net); used += 3
+            moved = sum(len(v) for v in self.frames.values()) - before
+            if self.quiescent():
+                return True
+            if moved:
+                jump = 1_000_000_000
+                continue
+            if self.inflight:
+                due = min(x[0] for x in self.inflight)
+                if due > self.time + dt_ns:
+                    self.run(1, due - self.time, net, net); used += 1
+                continue
+            needs = []
+            for ep in self.eps:
+                pr = self.probe(ep)
+                if pr is not None and int(pr["fa"][0]) < 0 and int(pr["rate"][0]) > 0:
+                    needs.append(-int(pr["fa"][0]) * 10**9 // int(pr["rate"][0]) + 1_000_000)
+            if needs:
+                # the earliest instant at which either side regains credit (an ack held back by the peer's own
+                # limiter must not wait for the sender's next data frame)
+                self.run(1, max(dt_ns, min(min(needs), 64_000_000_000)), net, net); used += 1
+            else:
+                self.run(1, jump, net, net); used += 1
+                jump = min(jump * 2, 64_000_000_000)
+        if smart:
+            return False
         while used < max_ticks and self.time < t_end:
             if self.dead:
                 return False
@@ -236,7 +268,16 @@ class Sim:
             if self.quiescent():
                 return True
             if moved == 0 and not self.inflight:
-                self.run(1, jump, net, net); used += 1
+                j = jump
+                if smart:
+                    # jump straight to the instant the sender's credit turns non-negative again
+                    need = 0
+                    for ep in self.eps:
+                        pr = self.probe(ep)
+                        if pr is not None and int(pr["fa"][0]) < 0 and int(pr["rate"][0]) > 0:
+                            need = max(need, -int(pr["fa"][0]) * 10**9 // int(pr["rate"][0]))
+                    j = max(jump, min(need, 64_000_000_000))
+                self.run(1, j, net, net); used += 1
                 jump = min(jump * 2, 64_000_000_000)
             else:
                 jump = 1_000_000_000
